@@ -202,15 +202,25 @@ def equivalent_form(rng, params, binding, ignore):
     return cs
 
 
+ODD_DEFAULTS = [{"o": "eqall"}, {"o": "eqnone"}, {"o": "raises"}, {"o": "elementwise"}]
+
+
 def gen_sig_scenario(rng, params, sid, quick=True):
+    if rng.random() < 0.2 and any(p[2] is not None for p in params):
+        # defaults whose ==/!= is non-standard (always equal like unittest.mock.ANY, never equal, raising, without a
+        # truth value): joblib must only ever test them by identity
+        params = [[n, k, (rng.choice(ODD_DEFAULTS) if d is not None and rng.random() < 0.6 else d)]
+                  for n, k, d in params]
     named = [p[0] for p in params if p[1] in ("pk", "ko") or (p[1] == "po" and rng.random() < 0.05)]
     ignore = []
     if named and rng.random() < 0.45:
         ignore = rng.sample(named, rng.randint(1, min(2, len(named))))
     compress = rng.choice([False, False, 3, ["gzip", 1]])
+    kind = rng.choice(["def", "def", "method", "method", "nested", "lambda"])
     sc = {"id": sid, "type": "sig", "params": params, "ignore": ignore, "compress": compress,
-          "versions": {"0": {"tag": "v0", "path": "verifmod.py", "pad": rng.choice([0, 0, 2]),
-                             "kind": rng.choice(["def", "def", "method", "method", "nested", "lambda"])}}}
+          "verbose": rng.choice([0, 0, 1, 2, 11, 60]), "mmap_mode": rng.choice([None, None, None, None, "r", "c"]),
+          "picklable": kind in ("def", "method") and rng.random() < 0.6,
+          "versions": {"0": {"tag": "v0", "path": "verifmod.py", "pad": rng.choice([0, 0, 2]), "kind": kind}}}
     events = [["define", 0], ["wrap", 0]]
     bindings = []
     n_refs = 0
@@ -275,7 +285,13 @@ def gen_sig_scenario(rng, params, sid, quick=True):
         elif r < 0.22 and n_refs:
             events.append(["get", rng.randrange(n_refs)])
         elif multi and r < 0.40:
-            events += [["newprocess"], ["define", 0], ["wrap", 0]]
+            if sc["picklable"] and rng.random() < 0.5:
+                # the cached function is sent to another process through pickle
+                events += [["rewrap", 0, "dump"], ["newprocess"], ["define", 0], ["wrap", 0], ["rewrap", 0, "load"]]
+            else:
+                events += [["newprocess"], ["define", 0], ["wrap", 0]]
+        elif sc["picklable"] and r < 0.62:
+            events.append(["rewrap", 0, rng.choice(["pickle", "pickle", "copy", "deepcopy"])])
         elif r < 0.44:
             events.append(["wrap", 0])
     sc["events"] = events
@@ -476,6 +492,29 @@ def fixed_scenarios(prop):
                     "params": [["a", "pk", None], ["b", "pk", None], ["c", "pk", I(12)], ["d", "ko", I(13)]],
                     "ignore": [], "compress": False, "versions": V, "mode": "own", "events": ev})
     if prop in ("C02", "C06"):
+        # a default that compares equal to everything (unittest.mock.ANY): search('k') / search('k', ANY, 10) /
+        # search('k', limit=10) are one binding
+        ANY = {"o": "eqall"}
+        ev = [["define", 0], ["wrap", 0]]
+        for cs in ({"pos": [{"s": "k"}], "kw": []}, {"pos": [{"s": "k"}, ANY, I(10)], "kw": []},
+                   {"pos": [{"s": "k"}], "kw": [["limit", I(10)]]}, {"pos": [], "kw": [["key", {"s": "k"}], ["pattern", ANY]]},
+                   {"pos": [{"s": "k"}, {"o": "eqnone"}], "kw": []}, {"pos": [{"s": "k"}, {"o": "eqnone"}, I(10)], "kw": []}):
+            ev += [["check", 0, cs, True], ["call", 0, cs, True]]
+        out.append({"id": "fixed-default-compares-equal-to-everything", "type": "sig",
+                    "params": [["key", "pk", None], ["pattern", "pk", ANY], ["limit", "pk", I(10)]], "ignore": [],
+                    "compress": False, "versions": {"0": {"tag": "v0", "path": "verifmod.py", "pad": 0, "kind": "def"}},
+                    "events": ev})
+        # verbose Memory + a wrapper that went through pickle / copy / another process before the repeated call
+        for vb in (2, 11):
+            ev = [["define", 0], ["wrap", 0], _call(0, [1], kind="check"), _call(0, [1]), ["rewrap", 0, "pickle"],
+                  _call(0, [1], kind="check"), _call(0, [1]), ["rewrap", 0, "copy"], _call(0, [1]), _call(0, [2]),
+                  ["rewrap", 0, "deepcopy"], _call(0, [2]), _call(0, [1], kind="shelve"), ["get", 0],
+                  ["rewrap", 0, "dump"], ["newprocess"], ["define", 0], ["wrap", 0], ["rewrap", 0, "load"],
+                  _call(0, [1], kind="check"), _call(0, [1]), _call(0, [2])]
+            out.append({"id": "fixed-verbose-%d-pickled-wrapper" % vb, "type": "sig", "verbose": vb, "picklable": True,
+                        "params": [["a", "pk", None], ["b", "pk", I(0)]], "ignore": [], "compress": False,
+                        "versions": {"0": {"tag": "v0", "path": "verifmod.py", "pad": 0,
+                                           "kind": "def" if vb == 2 else "method"}}, "events": ev})
         # callables without __code__ whose reprs differ by an address only: p1(x); p2(x); p1(x)
         for fl, upd in (("modules", lambda k: {"path": "codeless_%d.py" % k, "tag": "vmod%d" % k}),
                         ("methods", lambda k: {"how": "method", "state": k}),
@@ -787,7 +826,8 @@ def run_scenario(sc, timeout=300):
             if not seg:
                 continue
             job = {"cache": cache, "moddir": moddir, "refs": os.path.join(tmp, "refs.pkl"),
-                   "scenario": {k: sc[k] for k in ("versions", "params", "ignore", "compress")}, "events": seg}
+                   "scenario": {k: sc[k] for k in ("versions", "params", "ignore", "compress", "verbose", "mmap_mode",
+                                                   "picklable") if k in sc}, "events": seg}
             p = subprocess.run([common.PYNP if sc.get("py") == "np" else common.PY,
                                 os.path.join(common.ROOT, "harness", "impl", "c02_impl.py")],
                                input=json.dumps(job), stdout=subprocess.PIPE, stderr=subprocess.PIPE, text=True,
@@ -1063,6 +1103,8 @@ def model_terms(sc, res):
             return None
         if t == "hotreload":
             hist.append("Define %d; Wrap %d" % (ev[2], ev[2]))
+        elif t == "rewrap":
+            hist.append("Get 999999")     # the copy has the state of the original: no model event (OSkip)
         elif t == "recode":
             hist.append("Wrap %d" % ev[1])    # an equal code object: the wrapper drops its cached source text
         elif t == "define":
